@@ -40,6 +40,14 @@ CHECKS.update({
    text="Every token sequence up to the bound (valid, singly and multiply erroneous) is parsed by compiled parsers of conflict-free grammars with error alternatives under recover() and a scan budget and compared with a transcription of the recovery rule: verdict, action calls including the error attribute's offending token and discarded attributes by identity, result, tokens consumed; sentences of the twin grammar must parse exactly as without error alternatives.",
    note="ExpectedTokens inside the attribute and the shape of the finally returned error are not compared (not fixed by the statement).", ref="6 C07"),
 })
+CHECKS.update({
+ "C16": dict(cat="exploration", tech="exhaustive call histories (ordered pairs/triples of inputs, injected action failures; Scan-count x Reset for lexers) on one object vs a fresh object, compiled unmodified code",
+   text="All histories up to the bound are enumerated on one parser/lexer object and the last call is compared, field by field, with a freshly created object: a differential oracle with no hand-written expectation.",
+   note="History length 2 (thorough 3); inputs up to length 3 (4).", ref="6 C16"),
+ "C17": dict(cat="exploration", tech="stateless exploration of goroutine interleavings under a hand-written cooperative scheduler (all schedules for short inputs, preemption bound 2 beyond) + separate free-running -race pass",
+   text="Two (thorough: three) goroutines with their own generated parser/lexer objects are run under a controlled scheduler that owns every hand-off between Scan calls and actions; every schedule within the stated bound is executed on the real compiled code and each goroutine's observation compared with its sequential run; unsynchronised accesses inside a step are caught by running the same bodies free under the race detector.",
+   note="Yield points are the parser's call-backs; the race pass is the guidance's separate detector run, not an enumeration.", ref="6 C17"),
+})
 NOT_YET = {}
 
 def main():
